@@ -98,6 +98,8 @@ RenderFrom(items, i, ts, v, off) ==
         ELSE <<>>) \o RenderFrom(items, i + 1, ts, v, off)
 (* the formatter shows epoch + offset, in the epoch's own scale *)
 Render(items, ts, v, off) == RenderFrom(items, 1, ts, DAdd(v, off), off)
+(* Formatter::new followed by set_timezone: the offset is what %z prints, the epoch shown is not shifted *)
+RenderSet(items, ts, v, off) == RenderFrom(items, 1, ts, v, off)
 AllJudged(items) == \A i \in 1..Len(items) : Judged(items[i].tok)
 
 (* round trip (parse of the rendered text with the same format) is required for formats without *)
